@@ -767,7 +767,7 @@ pub fn deliver(w: &mut World, id: u64, label: &str) {
         }
         9 => {
             let pos = headers.iter().position(|(k, _)| k == "etag");
-            let which = w.draws.draw(&format!("{label}/etag.kind"), 7);
+            let which = w.draws.draw(&format!("{label}/etag.kind"), 9);
             match (pos, which) {
                 (Some(p), 0) => {
                     headers.remove(p);
@@ -820,6 +820,26 @@ pub fn deliver(w: &mut World, id: u64, label: &str) {
                             tamper = "etag_recompose_no_cup2key".into();
                         }
                     }
+                }
+                (Some(p), 7) => {
+                    // genuine signature, request-hash half replaced by valid hex of another length
+                    let v = String::from_utf8_lossy(&headers[p].1).to_string();
+                    if let Some((sig, hash)) = v.rsplit_once(':') {
+                        let lens = [0usize, 2, 6, 32, 62, 66, 128];
+                        let n = lens[w.draws.draw(&format!("{label}/etag.hashlen"), lens.len() as u64) as usize];
+                        let clean: String = hash.chars().filter(|c| c.is_ascii_hexdigit()).collect();
+                        let longer = format!("{clean}{clean}{clean}");
+                        let tail = if hash.ends_with('"') { "\"" } else { "" };
+                        headers[p].1 = format!("{sig}:{}{tail}", &longer[..n.min(longer.len())]).into_bytes();
+                        tamper = format!("etag_hash_length_{n}");
+                    }
+                }
+                (_, 8) => {
+                    let texts: [&[u8]; 14] = [b"", b"\"", b"\"\"", b"W/\"", b"W/\"\"", b":", b"::", b"W/\":\"", b"abc", b"zz:zz", b"00:00", b"\"00:00", b"W/00:00\"", b"3006020101020101:00"];
+                    let t = texts[w.draws.draw(&format!("{label}/etag.text"), texts.len() as u64) as usize];
+                    headers.retain(|(k, _)| k != "etag");
+                    headers.push(("etag".into(), t.to_vec()));
+                    tamper = "etag_arbitrary_text".into();
                 }
                 (_, _) => {
                     // genuine key, digest with request/response hashes swapped
